@@ -1,5 +1,9 @@
 (* Extraction of the C01 generator-shape model to OCaml (ExtrOcamlBasic only). *)
-From Coq Require Import ZArith ExtrOcamlBasic.
-Require Import ZV.Model.GenShape ZV.Model.CallCheck ZV.Model.Destructure.
+From Coq Require Import ZArith String ExtrOcamlBasic.
+Require Import ZV.Model.GenShape ZV.Model.CallCheck ZV.Model.Destructure ZV.Model.PrattShape.
+(* Coq strings become lists of (extracted) ascii, so that model.ml defines no type called
+   `string` (ocaml/common/zutil.ml opens Model and uses OCaml's string type). *)
+Extract Inductive string => "(ascii list)" [ "[]" "(fun (a, s) -> a :: s)" ]
+  "(fun fe fs s -> match s with [] -> fe () | a :: s' -> fs a s')".
 Extraction "model.ml" Z.add Z.mul Z.opp Z.div_eucl Z.of_nat Z.to_nat Z.compare
-  load_deferred size call_check assign_arrays bindlist.
+  load_deferred size call_check assign_arrays bindlist expand_gen mk_tok psize_list infix_form_gen argk_size.
